@@ -316,8 +316,15 @@ class FloatEnumParam(Parameter):
         # (self.<name> = value): change the enum parameter to the closest allowed value,
         # which triggers in turn the update of the float parameter
         vdict = self.valuedict
-        if not err and value != vdict[modobj.parameters[self.idx_name].value]:
-            setattr(modobj, self.idx_name, min(vdict, key=lambda i: abs(vdict[i] - value)))
+        idx = modobj.parameters[self.idx_name].value
+        if not err and value != vdict[idx]:
+            closest = min(vdict, key=lambda i: abs(vdict[i] - value))
+            if closest == idx:
+                # the index stays: an update of an unchanged index may be omitted
+                # (omit_unchanged_within), so the float parameter is corrected here
+                modobj.announceUpdate(self.name, vdict[closest])
+            else:
+                setattr(modobj, self.idx_name, closest)
 
     def finish(self, modobj=None):
         """register callbacks for consistency"""
